@@ -947,6 +947,15 @@ func (g *gen) frameHeap(modset map[string]bool) {
 func (g *gen) retEnv(rs *retSite) *env {
 	g.curBlock = rs.block
 	e := &env{g: g, vars: map[string]T{}, state: rs.state, old: g.initState()}
+	// locals by debug name: values defined in the blocks that dominate the return (parameters and
+	// results of the same name take precedence)
+	if rs.block != nil {
+		for _, blk := range append(g.domChain(rs.block), rs.block) {
+			for n, t := range g.debugVars[blk] {
+				e.vars[n] = t
+			}
+		}
+	}
 	for k, v := range g.params {
 		e.vars[k] = v
 	}
